@@ -164,6 +164,7 @@ def Remote.allowAll (r : Remote) (vpns : List Addr) (udp : Addr) : Bool :=
 structure RangeEntry where
   key : Option Prefix
   list : Option (List Entry)
+  deriving DecidableEq
 
 /-- `getRemoteAllowRanges` loop (entries in iteration order). -/
 def rangesLoop : Table (Option (Table Bool)) → List RangeEntry → Except Err (Table (Option (Table Bool)))
